@@ -71,6 +71,8 @@ pub struct Case {
     pub fault: Fault,
     /// `make_accessible(-a, b)` before execution
     pub pregrow: Option<(i64, i64)>,
+    /// `memory.mov(d)` after the pre-growth: the program starts this far from the tape
+    pub far_move: Option<i64>,
     pub junk: u64,
     pub alloc: AllocPlan,
     pub hash_seed: u64,
@@ -93,6 +95,7 @@ impl Case {
             "peer": self.peer.to_json(),
             "fault": self.fault.to_json(),
             "pregrow": match self.pregrow { Some((a, b)) => json!([a, b]), None => Value::Null },
+            "far_move": self.far_move,
             "junk": self.junk,
             "alloc": {"guard": self.alloc.guard, "seed": self.alloc.seed, "reuse": self.alloc.reuse,
                       "fail_at": self.alloc.fail_at},
@@ -121,6 +124,7 @@ impl Case {
                 Some(Value::Array(x)) if x.len() == 2 => Some((x[0].as_i64()?, x[1].as_i64()?)),
                 _ => None,
             },
+            far_move: v.get("far_move").and_then(|x| x.as_i64()),
             junk: v.get("junk").and_then(|x| x.as_u64()).unwrap_or(0),
             alloc: AllocPlan {
                 guard: a.get("guard")?.as_bool()?,
